@@ -357,7 +357,7 @@ pub fn run(ctx: &Ctx) -> ! {
             }
         }
     }
-    let spec = RunSpec { shards: 16, cases_per_shard: ctx.tier.pick(120, 2000), cfg_len: CFG_LEN, min_ops: 6, max_ops: ctx.tier.pick(34, 60), max_shrink_iters: 400 };
+    let spec = RunSpec { shards: 16, cases_per_shard: ctx.tier.pick(120, 4000), cfg_len: CFG_LEN, min_ops: 6, max_ops: ctx.tier.pick(34, 60), max_shrink_iters: 400 };
     match run_sharded(&ev, &spec, 19, &run) {
         Ok(()) => finish_ok(&ev),
         Err(v) => {
